@@ -41,6 +41,11 @@ macro_rules! seal_equiv_harness {
         #[kani::proof]
         #[kani::unwind(20)]
         #[kani::stub(zeroize::optimization_barrier, noop_barrier)]
+        #[kani::stub(hkdf::HkdfExtract::new, crate::fasthkdf::stub_extract_new)]
+        #[kani::stub(hkdf::HkdfExtract::input_ikm, crate::fasthkdf::stub_input_ikm)]
+        #[kani::stub(hkdf::HkdfExtract::finalize, crate::fasthkdf::stub_finalize)]
+        #[kani::stub(hkdf::Hkdf::from_prk, crate::fasthkdf::stub_from_prk)]
+        #[kani::stub(hkdf::Hkdf::expand_multi_info, crate::fasthkdf::stub_expand_multi_info)]
         pub fn $name() {
             const MODE: u8 = $mode;
             let bytes: [u8; RNG_CAP] = kani::any();
@@ -98,6 +103,11 @@ macro_rules! open_equiv_harness {
         #[kani::proof]
         #[kani::unwind(20)]
         #[kani::stub(zeroize::optimization_barrier, noop_barrier)]
+        #[kani::stub(hkdf::HkdfExtract::new, crate::fasthkdf::stub_extract_new)]
+        #[kani::stub(hkdf::HkdfExtract::input_ikm, crate::fasthkdf::stub_input_ikm)]
+        #[kani::stub(hkdf::HkdfExtract::finalize, crate::fasthkdf::stub_finalize)]
+        #[kani::stub(hkdf::Hkdf::from_prk, crate::fasthkdf::stub_from_prk)]
+        #[kani::stub(hkdf::Hkdf::expand_multi_info, crate::fasthkdf::stub_expand_multi_info)]
         pub fn $name() {
             const MODE: u8 = $mode;
             // an honest sealed message first, so that the success path is reachable
@@ -172,6 +182,11 @@ macro_rules! open_alloc_equiv_harness {
         #[kani::proof]
         #[kani::unwind(20)]
         #[kani::stub(zeroize::optimization_barrier, noop_barrier)]
+        #[kani::stub(hkdf::HkdfExtract::new, crate::fasthkdf::stub_extract_new)]
+        #[kani::stub(hkdf::HkdfExtract::input_ikm, crate::fasthkdf::stub_input_ikm)]
+        #[kani::stub(hkdf::HkdfExtract::finalize, crate::fasthkdf::stub_finalize)]
+        #[kani::stub(hkdf::Hkdf::from_prk, crate::fasthkdf::stub_from_prk)]
+        #[kani::stub(hkdf::Hkdf::expand_multi_info, crate::fasthkdf::stub_expand_multi_info)]
         pub fn $name() {
             const W: usize = $wire;
             let sk_r: u16 = kani::any();
@@ -204,6 +219,11 @@ open_alloc_equiv_harness!(c14_open_alloc_equiv_w18, 18);
 #[kani::proof]
 #[kani::unwind(20)]
 #[kani::stub(zeroize::optimization_barrier, noop_barrier)]
+#[kani::stub(hkdf::HkdfExtract::new, crate::fasthkdf::stub_extract_new)]
+#[kani::stub(hkdf::HkdfExtract::input_ikm, crate::fasthkdf::stub_input_ikm)]
+#[kani::stub(hkdf::HkdfExtract::finalize, crate::fasthkdf::stub_finalize)]
+#[kani::stub(hkdf::Hkdf::from_prk, crate::fasthkdf::stub_from_prk)]
+#[kani::stub(hkdf::Hkdf::expand_multi_info, crate::fasthkdf::stub_expand_multi_info)]
 pub fn c14_seal_alloc_equiv() {
     let bytes: [u8; RNG_CAP] = kani::any();
     let mut rng1 = ScriptRng::new(bytes);
